@@ -455,6 +455,25 @@ MUTANTS = [
          old="                            result_register,\n                            start_result.unwrap(self)?,\n                            end_result.unwrap(self)?,", new="                            result_register,\n                            end_result.unwrap(self)?,\n                            start_result.unwrap(self)?,", expect="V-codegen2::Compiler::compile_node__range_arm::start_then_end_then_the_range"),
     dict(name="codegen2_range_one_temporary_not_released", kind="break", prop="C01", units=["V-codegen2"], file="crates/bytecode/src/compiler.rs",
          old="                    if start_result.is_temporary {\n                        self.pop_register()?;\n                    }\n                    if end_result.is_temporary {", new="                    if end_result.is_temporary {", expect="V-codegen2::Compiler::compile_node__range_arm::temporaries_released"),
+    dict(name="codegen2_f42_assignment_keeps_the_values_temporary", kind="break", prop="C01", units=["V-codegen2"], file="crates/bytecode/src/compiler.rs",
+         old="""            ResultRegister::None => {
+                if value_result.is_temporary {
+                    self.pop_register()?;
+                }
+                CompileNodeOutput::none()
+            }
+        };
+
+        self.pop_span();""", new="""            ResultRegister::None => CompileNodeOutput::none(),
+        };
+
+        self.pop_span();""", expect="V-codegen2::Compiler::compile_assign::temporaries_released"),
+    dict(name="codegen2_assign_chain_compiled_before_the_value", kind="break", prop="C01", units=["V-codegen2"], file="crates/bytecode/src/compiler.rs",
+         old="                    Some(value_register),\n                    None,\n                    ctx.compile_for_side_effects(),", new="                    None,\n                    None,\n                    ctx.compile_for_side_effects(),", expect="V-codegen2::Compiler::compile_assign::chain_target_gets_the_value"),
+    dict(name="codegen2_assign_result_not_copied", kind="break", prop="C01", units=["V-codegen2"], file="crates/bytecode/src/compiler.rs",
+         old="                if register != value_register {\n                    self.push_op(Copy, &[register, value_register]);\n                }\n                if value_result.is_temporary {", new="                if value_result.is_temporary {", expect="V-codegen2::Compiler::compile_assign::assigned_value_copied_to_the_result"),
+    dict(name="codegen2_assign_span_left_on_the_stack", kind="break", prop="C12", units=["V-codegen2"], file="crates/bytecode/src/compiler.rs",
+         old="        self.pop_span();\n\n        Ok(result)\n    }\n\n    fn compile_assign_to_map(", new="        Ok(result)\n    }\n\n    fn compile_assign_to_map(", expect="V-codegen2::Compiler::compile_assign::"),
     # ---- V-callseq
     dict(name="callseq_piped_value_last", kind="break", prop="C02", units=["V-callseq"], file="crates/bytecode/src/compiler.rs",
          old="""        let arg_offset = if let Some(piped_arg) = piped_arg {
